@@ -158,3 +158,141 @@ def recover_local_renames(fn, ref_sigs: Dict[str, Dict[str, int]]) -> Dict[str, 
     if mp:
         rename_locals(fn, mp)
     return mp
+
+
+# ---------------------------------------------------------------------------
+# renamed instance attributes and module-level names (constants, helpers whose body was edited too)
+
+
+def _parents(tree) -> Dict[int, ast.AST]:
+    out = {}
+    for n in ast.walk(tree):
+        for c in ast.iter_child_nodes(n):
+            out[id(c)] = n
+    return out
+
+
+def _attr_ctx(parent, node) -> str:
+    """context of an attribute / global-name occurrence: the enclosing expression or statement header with every plain name masked"""
+    def dump(n) -> str:
+        if n is node:
+            return "@"
+        if isinstance(n, ast.Name):
+            return "_"
+        if isinstance(n, ast.arg):
+            return "_"
+        if isinstance(n, ast.Constant):
+            return "K" if isinstance(n.value, str) and len(n.value) > 12 else repr(n.value)
+        if isinstance(n, ast.AST):
+            parts = []
+            for f, v in ast.iter_fields(n):
+                if f in ("ctx", "type_comment", "annotation", "returns", "lineno", "col_offset", "end_lineno", "end_col_offset", "decorator_list"):
+                    continue
+                parts.append(f"{f}={dump(v)}")
+            return f"{type(n).__name__}({','.join(parts)})"
+        if isinstance(n, list):
+            return "[" + ",".join(dump(x) for x in n) + "]"
+        return repr(n)
+    return hashlib.sha1(dump(_header(parent)).encode()).hexdigest()[:10]
+
+
+def attribute_sigs(trees: Dict[str, ast.Module]) -> Dict[str, Dict[str, int]]:
+    """usage signature of every instance attribute (a name stored through `self.<name> = ...` somewhere in the package)"""
+    stored: Set[str] = set()
+    for t in trees.values():
+        for n in ast.walk(t):
+            if isinstance(n, ast.Attribute) and not isinstance(n.ctx, ast.Load) and isinstance(n.value, ast.Name) and n.value.id == "self":
+                stored.add(n.attr)
+    sigs: Dict[str, Counter] = {a: Counter() for a in stored}
+    for t in trees.values():
+        par = _parents(t)
+        for n in ast.walk(t):
+            if isinstance(n, ast.Attribute) and n.attr in stored:
+                p = par.get(id(n))
+                if p is not None:
+                    sigs[n.attr][type(n.ctx).__name__ + _attr_ctx(p, n)] += 1
+    return {k: dict(v) for k, v in sigs.items() if v}
+
+
+def module_name_sigs(trees: Dict[str, ast.Module]) -> Dict[str, Dict[str, Dict[str, int]]]:
+    """module -> {top-level name: usage signature}: names bound by assignment, def or class at module level; the signature counts the
+    contexts of every occurrence of the name in the package plus one entry for the shape of its definition"""
+    defined: Dict[str, Dict[str, ast.AST]] = {}
+    for mname, t in trees.items():
+        d = {}
+        for st in t.body:
+            if isinstance(st, ast.Assign) and len(st.targets) == 1 and isinstance(st.targets[0], ast.Name):
+                d[st.targets[0].id] = st.value
+            elif isinstance(st, ast.AnnAssign) and isinstance(st.target, ast.Name) and st.value is not None:
+                d[st.target.id] = st.value
+            elif isinstance(st, (ast.FunctionDef, ast.AsyncFunctionDef, ast.ClassDef)):
+                d[st.name] = st
+        defined[mname] = d
+    universe = {n for d in defined.values() for n in d}
+    uses: Dict[str, Counter] = {n: Counter() for n in universe}
+    for t in trees.values():
+        par = _parents(t)
+        for n in ast.walk(t):
+            if isinstance(n, ast.Name) and n.id in universe:
+                p = par.get(id(n))
+                if p is not None:
+                    uses[n.id][type(n.ctx).__name__ + _attr_ctx(p, n)] += 1
+            elif isinstance(n, ast.Attribute) and n.attr in universe and isinstance(n.ctx, ast.Load):
+                p = par.get(id(n))
+                if p is not None:
+                    uses[n.attr]["A" + _attr_ctx(p, n)] += 1
+    out: Dict[str, Dict[str, Dict[str, int]]] = {}
+    for mname, d in defined.items():
+        out[mname] = {}
+        for name, v in d.items():
+            sig = Counter(uses[name])
+            if isinstance(v, (ast.FunctionDef, ast.AsyncFunctionDef, ast.ClassDef)):
+                for st in v.body:
+                    sig["body:" + _attr_ctx(st, None)] += 1
+            else:
+                sig["value:" + hashlib.sha1(ast.dump(v).encode()).hexdigest()[:10]] += 3
+            out[mname][name] = dict(sig)
+    return out
+
+
+def recover_attribute_renames(trees: Dict[str, ast.Module], ref_sigs: Dict[str, Dict[str, int]]) -> Dict[str, str]:
+    cur = attribute_sigs(trees)
+    missing = {k: v for k, v in ref_sigs.items() if k not in cur}
+    extra = {k: v for k, v in cur.items() if k not in ref_sigs}
+    mp = pair_up(missing, extra, floor=0.5, margin=0.15)
+    if mp:
+        for t in trees.values():
+            for n in ast.walk(t):
+                if isinstance(n, ast.Attribute) and n.attr in mp:
+                    n.attr = mp[n.attr]
+    return mp
+
+
+def recover_module_name_renames(trees: Dict[str, ast.Module], ref_sigs: Dict[str, Dict[str, Dict[str, int]]]) -> Dict[str, str]:
+    cur = module_name_sigs(trees)
+    all_ref = {n for d in ref_sigs.values() for n in d}
+    all_cur = {n for d in cur.values() for n in d}
+    mp: Dict[str, str] = {}
+    for mname, refd in ref_sigs.items():
+        curd = cur.get(mname, {})
+        missing = {k: v for k, v in refd.items() if k not in curd and k not in all_cur}
+        extra = {k: v for k, v in curd.items() if k not in refd and k not in all_ref}
+        for new, old in pair_up(missing, extra, floor=0.5, margin=0.15).items():
+            if new not in mp and not new.startswith("__"):
+                mp[new] = old
+    if mp:
+        for t in trees.values():
+            for n in ast.walk(t):
+                if isinstance(n, ast.Name) and n.id in mp:
+                    n.id = mp[n.id]
+                elif isinstance(n, ast.Attribute) and n.attr in mp:
+                    n.attr = mp[n.attr]
+                elif isinstance(n, (ast.FunctionDef, ast.AsyncFunctionDef, ast.ClassDef)) and n.name in mp and n in t.body:
+                    n.name = mp[n.name]
+                elif isinstance(n, ast.ImportFrom):
+                    for a in n.names:
+                        if a.name in mp:
+                            a.name = mp[a.name]
+                elif isinstance(n, (ast.Global, ast.Nonlocal)):
+                    n.names = [mp.get(x, x) for x in n.names]
+    return mp
